@@ -46,9 +46,28 @@ func ringShapeOf(fn *ssa.Function) ringShape {
 			seq = p
 		}
 	}
+	ringScan(fn, seq, &rs, 0)
+	rs.window, rs.shifts, rs.bitMask, rs.idxMask = uniq(rs.window), uniq(rs.shifts), uniq(rs.bitMask), uniq(rs.idxMask)
+	return rs
+}
+
+// ringScan collects the constants applied to seq in fn and in the helpers of the same
+// package that fn hands seq to.
+func ringScan(fn *ssa.Function, seq ssa.Value, rs *ringShape, depth int) {
 	isSeq := func(v ssa.Value) bool { return seq != nil && strip(v) == seq }
 	eachInstr(fn, func(ins ssa.Instruction) {
 		switch x := ins.(type) {
+		case *ssa.Call:
+			g := staticCallee(&x.Call)
+			if g == nil || depth >= 2 || g.Pkg != fn.Pkg || len(g.Blocks) == 0 {
+				return
+			}
+			args := callArgs(&x.Call)
+			for i, a := range args {
+				if isSeq(a) && i < len(g.Params) {
+					ringScan(g, g.Params[i], rs, depth+1)
+				}
+			}
 		case *ssa.BinOp:
 			cx, okx := constInt(x.X)
 			cy, oky := constInt(x.Y)
@@ -108,8 +127,6 @@ func ringShapeOf(fn *ssa.Function) ringShape {
 			}
 		}
 	})
-	rs.window, rs.shifts, rs.bitMask, rs.idxMask = uniq(rs.window), uniq(rs.shifts), uniq(rs.bitMask), uniq(rs.idxMask)
-	return rs
 }
 
 // seqPlus recognises seq + k1 + k2 ... and returns the constant sum.
